@@ -498,6 +498,11 @@ impl<'a> Exec<'a> {
                 after.save_user_data(d.clone());
                 recs.push(MRec::State(after.st.clone()));
             }
+            Op::UpdateLast(l) => {
+                // a State record replaces the state wholesale; index and cache are not touched
+                after.st.last = *l;
+                recs.push(MRec::State(after.st.clone()));
+            }
             _ => unreachable!(),
         }
         let check_reject = expect_err && self.or.reject_clean;
@@ -517,6 +522,11 @@ impl<'a> Exec<'a> {
             Op::Purge(id) => rl.purge(*id),
             Op::Commit(id) => rl.commit(*id),
             Op::UserData(d) => rl.save_user_data(d.clone()),
+            Op::UpdateLast(l) => {
+                let mut st = rl.log_state().clone();
+                st.set_last(*l);
+                rl.update_state(st)
+            }
             _ => unreachable!(),
         }));
         let t_return = core::trace_len();
@@ -981,6 +991,7 @@ pub fn op_kind(op: &Op) -> &'static str {
         Op::Purge(_) => "purge",
         Op::Commit(_) => "commit",
         Op::UserData(_) => "save_user_data",
+        Op::UpdateLast(_) => "update_state",
         Op::Flush { .. } | Op::FlushNone => "flush",
         Op::Read(..) => "read",
         _ => "other",
@@ -1111,7 +1122,12 @@ fn run_spec_inner(spec: &Spec, or: &Oracles, root: &str, model: Model, existing:
                 }
                 let r = {
                     let rl = ex.rl();
-                    catch_unwind(AssertUnwindSafe(|| (rl.stat(), rl.on_disk_size())))
+                    catch_unwind(AssertUnwindSafe(|| {
+                        let st = rl.stat();
+                        // the Display paths format offsets and counters: they must not panic either
+                        let _ = format!("{} {:#} {:?}", st, st, rl.config());
+                        (st.closed_chunks.len(), rl.on_disk_size())
+                    }))
                 };
                 if let Err(p) = r {
                     ex.violate(format!("panic:{}:stat", panic_class(&last_panic_loc(), &panic_msg(&*p))), format!("stat()/on_disk_size() after op #{i} panicked: {}", panic_msg(&*p)));
